@@ -74,7 +74,9 @@ pub fn apply_power_loss() {
                 }
             }
         }
-        for (f, from, to) in d.poisoned.clone() {
+        // (each such range is lost once: what the file holds after this power loss is what is on the disk, and bytes
+        // written and synced there by a later incarnation are as durable as any others)
+        for (f, from, to) in std::mem::take(&mut d.poisoned) {
             if let Ok(md) = std::fs::metadata(&f) {
                 let to = to.min(md.len());
                 if to > from {
